@@ -27,8 +27,8 @@ ASSUMPTIONS = ["CPU generator only (no GPU in the sandbox)", "construction draws
 COUNTS = ("states = histories x seeds (each history is a distinct state: no merging); transitions = operations executed across the three runs; "
           "traces_validated_against_impl = histories whose three runs satisfied all comparisons")
 
-OPS = ["reinit", "sample", "sample_one", "sample_init", "stats", "stats_one", "sysstats", "fit", "fit_neg", "grad", "exact", "rotate", "metric", "save", "apply"]
-READONLY = {"sample", "sample_one", "stats_one", "sample_init", "stats", "sysstats", "grad", "exact", "rotate", "metric", "save", "apply"}
+OPS = ["reinit", "overwrite_space", "sample", "sample_one", "sample_init", "stats", "stats_one", "sysstats", "fit", "fit_neg", "grad", "exact", "rotate", "metric", "save", "apply"]
+READONLY = {"overwrite_space", "sample", "sample_one", "stats_one", "sample_init", "stats", "sysstats", "grad", "exact", "rotate", "metric", "save", "apply"}
 DATA = torch.tensor([[0.0, 1.0], [1.0, 1.0], [1.0, 0.0]], dtype=torch.double)
 BASES = np.array([list("ZZ"), list("XY"), list("YZ")])
 BASES_FIT = np.array([list("ZZ"), list("XY"), list("ZZ")])
@@ -76,6 +76,10 @@ def do(op, st, tmp):
         return None
     if op == "sample":
         return st.sample(k=3, num_samples=40)
+    if op == "overwrite_space":
+        # the caller owns what generate_hilbert_space returned: advancing it in place is documented API
+        own = st.generate_hilbert_space()
+        return st.sample(k=1, initial_state=own, overwrite=True)
     if op == "sample_one":
         a = st.sample(k=2)  # a single chain (the default num_samples)
         b = st.sample(k=1, initial_state=DATA[0].clone())  # a single chain given as a vector
@@ -113,9 +117,12 @@ def do(op, st, tmp):
     raise EngineError(op)
 
 
-def run(kind, hist, seed, perturb, tmp):
+SEED_FORMS = {"cpu": dict(cpu=True, gpu=False, quiet=True), "default": dict(quiet=True), "cpu+gpu-flag": dict(cpu=True, gpu=True, quiet=True)}
+
+
+def run(kind, hist, seed, perturb, tmp, form="cpu"):
     L = lib()
-    L.qucumber.set_random_seed(seed, cpu=True, gpu=False, quiet=True)
+    L.qucumber.set_random_seed(seed, **SEED_FORMS[form])
     if perturb:
         np.random.seed(perturb)
         random.seed(perturb)
@@ -155,7 +162,7 @@ def check_history(acc, kind, hist, seed, tmp, flagged):
         flag(f"repro:raised:{e.kind}:{e.site}", e.tb)
         return
     acc.transitions += 3 * len(hist)
-    randomized = any(op in ("reinit", "sample", "sample_one", "stats_one", "sample_init", "stats", "sysstats", "fit", "fit_neg") for op in hist)
+    randomized = any(op in ("reinit", "overwrite_space", "sample", "sample_one", "stats_one", "sample_init", "stats", "sysstats", "fit", "fit_neg") for op in hist)
     acc.ev(1, nontrivial=randomized)
     ok = True
     if a != b:
@@ -208,6 +215,14 @@ def run_item(item):
                 if runs[ks[i]] == runs[ks[j]] and "repro:two-different-seeds-give-identical-runs" not in flagged:
                     flagged.add("repro:two-different-seeds-give-identical-runs")
                     acc.viol("repro:two-different-seeds-give-identical-runs", dict(kind=kind, history=[first], seed=ks[i], other_seed=ks[j]))
+        # every documented way of calling the seeding function must seed the CPU generator
+        # (gpu=True on a host without CUDA falls back with a warning)
+        base_run = run(kind, (first,), 7, 0, tmp)[0]
+        for form in ("default", "cpu+gpu-flag"):
+            acc.transitions += 1
+            if run(kind, (first,), 7, 0, tmp, form=form)[0] != base_run and "repro:seeding-call-form-does-not-seed:" + form not in flagged:
+                flagged.add("repro:seeding-call-form-does-not-seed:" + form)
+                acc.viol("repro:seeding-call-form-does-not-seed:" + form, dict(kind=kind, history=[first], seed=7, form=form))
         third = OPS if tier == "quick" else OPS
         for b in OPS:
             for c in third:
@@ -228,6 +243,13 @@ def replay(case):
     acc = Acc()
     tmp = tempfile.mkdtemp(prefix="c14_", dir=os.path.join(HOME, ".work"))
     try:
+        if "form" in case:
+            a = run(case["kind"], tuple(case["history"]), case["seed"], 0, tmp)[0]
+            b = run(case["kind"], tuple(case["history"]), case["seed"], 0, tmp, form=case["form"])[0]
+            acc.ev(1)
+            if a != b:
+                acc.viol("repro:seeding-call-form-does-not-seed:" + case["form"], case)
+            return acc
         if "other_seed" in case:
             a = run(case["kind"], tuple(case["history"]), case["seed"], 0, tmp)[0]
             b = run(case["kind"], tuple(case["history"]), case["other_seed"], 0, tmp)[0]
